@@ -508,6 +508,9 @@ func main() {
 	case "labels":
 		labelsMain(f)
 		return
+	case "time":
+		timeMain(f)
+		return
 	}
 	out := hx.OpenOut(f.Out)
 	defer out.Close()
